@@ -471,8 +471,7 @@ def check_standard(ctx, exe, runner, viol):
         cases.append([1, sm['n'], [[dy(x) for x in a] for a in sm['ap']], sm['meshes'], [[dy(x) for x in p] for p in pts]])
         meta.append((sm, pts)); ctx.dist('standard_%dd' % sm['n']); ctx.dist('standard_family_' + fam)
     corpus = [c for c in load_corpus(ctx) if c[0] == 1]
-    for c in corpus:
-        meta.insert(0, ({'n': c[1], 'ap': [[undy(x) for x in a] for a in c[2]], 'meshes': c[3]}, [[undy(x) for x in p] for p in c[4]]))
+    meta = [({'n': c[1], 'ap': [[undy(x) for x in a] for a in c[2]], 'meshes': c[3]}, [[undy(x) for x in p] for p in c[4]]) for c in corpus] + meta
     cases = corpus + cases
     cf = write_cases(ctx, 'standard', cases)
     rc_i, impl = run_impl(ctx, exe, cf)
